@@ -308,3 +308,26 @@ def var_read_sites(fn, pv, op, bi, si, var_local, _seen=None, _depth=0):
         for o in ops:
             out |= var_read_sites(fn, pv, o, dbi, dsi, var_local, _seen, _depth + 1)
     return out
+
+
+def entry_forwarding(run, rule, only=None):
+    """Every Anchor dispatch wrapper hands its own arguments to the handler under the names the handler gives them
+    (two same-typed arguments in swapped positions change the instruction's meaning without any type error)."""
+    from analysis import program
+    from analysis.prov import prov_of
+    facts = run.facts
+    n = 0
+    for e in program.entries(facts):
+        if e.handler is None or (only and not any(o in e.name for o in only)):
+            continue
+        f = e.fn
+        pv = prov_of(f)
+        for bi, t in f.calls():
+            if callee_path(t) != e.handler:
+                continue
+            args = [pv.operand(a, bi, len(f.blocks[bi]["s"])) for a in t["a"]]
+            mm = argname_mismatches(facts, f, bi, t, args)
+            n += 1
+            run.check(rule, "entry-forwards:" + e.name, not mm, "dispatch wrapper `%s` passes its arguments to %s in the wrong positions: %s" % (e.name, e.handler, "; ".join(mm)), loc=f.loc(t["l"]),
+                      detail="%d argument(s) forwarded under the handler's own names" % max(0, len(args) - 1))
+    return n
